@@ -502,7 +502,10 @@ class AsyncFIXConnection:
             _is_err = True
             if msg.msg_type == FMsg.SEQUENCERESET:
                 _is_err = False
-            if self._connection_state == ConnectionState.RESENDREQ_AWAITING:
+            if (
+                self._connection_state == ConnectionState.RESENDREQ_AWAITING
+                and msg.get(FTag.PossDupFlag, "N") == "Y"
+            ):
                 _is_err = False
 
             if _is_err:
